@@ -126,7 +126,7 @@ def round_key(v):
 
 
 # --------------------------------------------------------------------- operations
-OPS = ["getitem", "getitem_int", "getitem_rows", "pad", "pad_wh", "expand", "translate_pix", "neighbours", "flipx", "flipy", "rotate",
+OPS = ["getitem", "getitem_bbox", "getitem_int", "getitem_rows", "pad", "pad_wh", "expand", "translate_pix", "neighbours", "flipx", "flipy", "rotate",
        "zoom_out", "zoom_to_shape", "zoom_to_int", "zoom_to_res", "scaled_down", "buffered", "center_pixel", "rmul", "mul", "step_rejected"]
 
 
@@ -155,6 +155,9 @@ def s_ops(draw):
         P = {"y": sl(ny), "x": sl(nx)}
         if op == "step_rejected":
             P["step"] = draw(st.sampled_from([2, 3, -1]))
+    elif op == "getitem_bbox":
+        ya, xa = draw(st.integers(0, ny - 1)), draw(st.integers(0, nx - 1))
+        P = {"y": [ya, draw(st.integers(ya + 1, ny))], "x": [xa, draw(st.integers(xa + 1, nx))], "m": draw(st.sampled_from([0.25, 0.05, 0.45]))}
     elif op == "getitem_int":
         P = {"i": draw(st.integers(-ny, ny - 1))}
     elif op == "getitem_rows":
@@ -277,6 +280,37 @@ def o_ops(case, T):
         require(out is None, "slice with step %r accepted: %r", P["step"], out)
         T.cls("op:" + op)
         return
+    elif op == "getitem_bbox":
+        # crop by a bounding box in the box's own CRS (round 8, C02-20): the world envelope of a pixel window, pulled in
+        # by a fraction of a pixel.  North-up or flipped, an axis-parallel grid returns exactly that window; a rotated /
+        # sheared one returns a window of the same grid that holds it.
+        from odc.geo import BoundingBox
+
+        (y0, y1), (x0, x1), m = P["y"], P["x"], P["m"]
+        pts = [gb.affine * (x, y) for x in (x0 + m, x1 - m) for y in (y0 + m, y1 - m)]
+        bb = BoundingBox(min(p[0] for p in pts), min(p[1] for p in pts), max(p[0] for p in pts), max(p[1] for p in pts), crs=gb.crs)
+        if gb.crs is None:
+            # a region without CRS is read as pixel coordinates of the box itself (compute_crop): the window, whatever the
+            # orientation of the grid
+            bb = BoundingBox(x0 + m, y0 + m, x1 - m, y1 - m, crs=None)
+        out = gb[bb]
+        a6 = g["affine"]
+        if gb.crs is None:
+            _cmp(out, (y1 - y0, x1 - x0), A * FA.translation(x0, y0), g, [nx + ny], "gbox[pixel-space bbox of window y=%r x=%r pulled in %r px]" % (P["y"], P["x"], m))
+            pclass = "pixel_space"
+        elif a6[1] == 0 and a6[3] == 0:
+            _cmp(out, (y1 - y0, x1 - x0), A * FA.translation(x0, y0), g, [nx + ny], "gbox[bbox of window y=%r x=%r pulled in %r px]" % (P["y"], P["x"], m))
+            pclass = "axis_parallel:" + ("north_up" if a6[0] > 0 and a6[4] < 0 else "flipped")
+        else:
+            Pm = FA.of(g["affine"]).inv() * FA.of(out.affine)
+            pa, pb, pc, pd, pe, pf = (float(v) for v in Pm.m)
+            ix, iy = round(pc), round(pf)
+            require(abs(pa - 1) < 1e-9 and abs(pe - 1) < 1e-9 and abs(pb) < 1e-9 and abs(pd) < 1e-9 and abs(pc - ix) < 1e-6 and abs(pf - iy) < 1e-6,
+                    "gbox[bbox]: result is not a window of the same pixel grid (source<-result %r)", (pa, pb, pc, pd, pe, pf))
+            oy, ox = out.shape
+            require(0 <= ix <= x0 and 0 <= iy <= y0 and x1 <= ix + ox <= nx and y1 <= iy + oy <= ny,
+                    "gbox[bbox]: window x=%d:%d y=%d:%d does not hold the requested pixels x=%r y=%r inside %r", ix, ix + ox, iy, iy + oy, P["x"], P["y"], (ny, nx))
+            pclass = "rotated"
     elif op == "getitem_int":
         i = P["i"]
         out = gb[i]
